@@ -114,6 +114,15 @@ func C02(c *core.Ctx) error {
 			combos = append(combos, genCombo{template: t, data: core.M{}, formatter: "gofmt", placement: p})
 		}
 	}
+	// replace-type towards an ALIAS of the original type (identical types): whatever the setting does internally, the
+	// mock still has to implement the interface, parameter for parameter
+	aliasRT := core.M{"replace-type": core.M{core.ModPath + "/dep3": core.M{"T": core.M{"pkg-path": core.ModPath + "/dep3alias", "type-name": "T"}}}}
+	aliasFiles := map[string]string{"dep3alias/a.go": "package dep3alias\n\nimport dep \"example.com/m/dep3\"\n\n// T is dep3's T under another name\ntype T = dep.T\n"}
+	for _, t := range []string{"testify", "matryer"} {
+		for _, p := range []string{"inpkg-test", "separate"} {
+			combos = append(combos, genCombo{template: t, data: core.M{}, dataName: "replace-type dep3.T by its alias", formatter: "gofmt", placement: p, extraCfg: aliasRT})
+		}
+	}
 	if !quick {
 		combos = append(combos, genCombo{template: "testify", data: core.M{"unroll-variadic": true}, dataName: "unroll-variadic=true", formatter: "goimports", placement: "inpkg-test"},
 			genCombo{template: "matryer", data: core.M{"skip-ensure": true, "stub-impl": true, "with-resets": true}, dataName: "skip-ensure+stub-impl+with-resets", formatter: "noop", placement: "separate"})
@@ -141,7 +150,13 @@ func C02(c *core.Ctx) error {
 			byName[cs.Name] = cs
 		}
 		local := c02LocalFile([]string{cases[0].Name, cases[1].Name, cases[2].Name, cases[3].Name, cases[4].Name})
-		o, m, err := genRun(c, g, cases, "", map[string]string{"src/zz_local.go": local}, true)
+		extraFiles := map[string]string{"src/zz_local.go": local}
+		if g.extraCfg != nil {
+			for k, v := range aliasFiles {
+				extraFiles[k] = v
+			}
+		}
+		o, m, err := genRun(c, g, cases, "", extraFiles, true)
 		if err == errResources {
 			c.Skip("%s: %v", g, err)
 			return
